@@ -1,7 +1,327 @@
 import Driver.Common
-namespace Driver.C15
-open Driver
+import Log4rsModel.Reconfig.Spec
+/-
+C15 driver. Three case kinds (first case field):
 
-def handle : Handler := fun _ _ => badCase "unimplemented"
+  swap    <cfgs> <scripts> <ops>                 => trace   B:tid:t:l , D:tid:tag:a , S:tag , E:tid , P:tid
+  stress  <cfgs> <nLog> <nReconf> <iters> <probes>  => per probe the set of distinct delivery lists seen
+  reload  <docs> <init d:m:forget> <steps>       => init:active:rate:alive , action:active:rate:alive …
+
+cfgs   : `|`-separated; one cfg = table ; rootLevel ; rootApps ; logger* with logger = t:level:a+b+…
+scripts: `;`-separated  cfg:appender:act,act…      act = s<k> (set_config(cfg k)) | l<t>.<level> (log)
+docs   : `;`-separated  kind:tag:rate:nonce        kind = g l y c r ; rate = - | seconds
+steps  : `,`-separated  w:<doc>:<mtime> | x | d:<mtime> | u:<mtime>
+-/
+namespace Driver.C15
+open Log4rs.Proto Log4rs.Reconfig Driver
+
+/-! ### decoding -/
+
+def decNats (sep : Char) (s : String) : Option (List Nat) :=
+  mapM? decNat (decList sep s)
+
+def decLogger (s : String) : Option (Target × Nat × List AppenderId) :=
+  match splitOnChar ':' s with
+  | [t, lv, apps] => do
+    let t ← decNat t; let lv ← decNat lv; let apps ← decNats '+' apps
+    pure (t, lv, apps)
+  | _ => none
+
+def decCfg (tag : Nat) (s : String) : Option MiniCfg :=
+  match splitOnChar ';' s with
+  | table :: rl :: ra :: loggers => do
+    let table ← decNats ',' table
+    let rl ← decNat rl
+    let ra ← decNats ',' ra
+    let ls ← mapM? decLogger loggers
+    let c : MiniCfg := { tag, table, rootLevel := rl, rootApps := ra, loggers := ls }
+    if c.valid && rl ≤ 5 && ls.all (fun e => e.2.1 ≤ 5) then some c else none
+  | _ => none
+
+def decCfgs (s : String) : Option (List MiniCfg) :=
+  let parts := splitOnChar '|' s
+  mapM? (fun (p : Nat × String) => decCfg p.1 p.2) (List.zip (List.range parts.length) parts)
+
+def decAct (n : Nat) (s : String) : Option Act :=
+  match s.toList with
+  | 's' :: r => (decNat (String.ofList r)).bind (fun k => if k < n then some (Act.swap k) else none)
+  | 'l' :: r =>
+    match splitOnChar '.' (String.ofList r) with
+    | [t, l] => do
+      let t ← decNat t; let l ← decNat l
+      if 1 ≤ l ∧ l ≤ 5 then some (Act.log t l) else none
+    | _ => none
+  | _ => none
+
+def decScript (n : Nat) (s : String) : Option (Nat × AppenderId × List Act) :=
+  match splitOnChar ':' s with
+  | [c, a, acts] => do
+    let c ← decNat c; let a ← decNat a
+    let acts ← mapM? (decAct n) (decList ',' acts)
+    pure (c, a, acts)
+  | _ => none
+
+/-! ### rendering -/
+
+def renderObs : Obs → String
+  | .begin tid t l => s!"B:{tid}:{t}:{l}"
+  | .deliver tid tag a => s!"D:{tid}:{tag}:{a}"
+  | .swapped tag => s!"S:{tag}"
+  | .fin tid => s!"E:{tid}"
+  | .panic tid => s!"P:{tid}"
+
+def decObs (s : String) : Option Obs :=
+  match splitOnChar ':' s with
+  | ["B", a, b, c] => do pure (.begin (← decNat a) (← decNat b) (← decNat c))
+  | ["D", a, b, c] => do pure (.deliver (← decNat a) (← decNat b) (← decNat c))
+  | ["S", a] => do pure (.swapped (← decNat a))
+  | ["E", a] => do pure (.fin (← decNat a))
+  | ["P", a] => do pure (.panic (← decNat a))
+  | _ => none
+
+def renderDeliveries (ds : List Delivery) : String :=
+  if ds.isEmpty then "_" else "+".intercalate (ds.map (fun d => s!"{d.1}:{d.2}"))
+
+def decDeliveries (s : String) : Option (List Delivery) :=
+  if s = "_" then some [] else
+  mapM? (fun p => match splitOnChar ':' p with
+    | [a, b] => do pure ((← decNat a), (← decNat b))
+    | _ => none) (splitOnChar '+' s)
+
+def sortStrings (xs : List String) : List String :=
+  (xs.toArray.qsort (· < ·)).toList.eraseDups
+
+/-! ### (a) scripted swaps -/
+
+def countSwapsInRecords (trace : List Obs) : Nat × Nat :=
+  -- (swaps that happened while some record was open, maximum number of swaps inside one top-level record)
+  let r := trace.foldl (fun (acc : Nat × Nat × Nat × Nat) o =>
+    let (openDepth, inside, curRun, maxRun) := acc
+    match o with
+    | .begin _ _ _ => (openDepth + 1, inside, curRun, maxRun)
+    | .fin _ => if openDepth = 1 then (0, inside, 0, max maxRun curRun) else (openDepth - 1, inside, curRun, maxRun)
+    | .swapped _ => if openDepth > 0 then (openDepth, inside + 1, curRun + 1, max maxRun (curRun + 1))
+                    else (openDepth, inside, curRun, maxRun)
+    | _ => acc) (0, 0, 0, 0)
+  (r.2.1, r.2.2.2)
+
+def handleSwap (cfgsS scriptsS opsS : String) (obs : List String) : Answer :=
+  match decCfgs cfgsS with
+  | none => badCase "cfgs"
+  | some cfgs =>
+    let n := cfgs.length
+    match mapM? (decScript n) (decList ';' scriptsS), mapM? (decAct n) (decList ',' opsS) with
+    | some scripts, some ops =>
+      let sc : Scenario := { cfgs, scripts, ops }
+      match sc.trace, obs with
+      | some trace, [implS] =>
+        let model := encList "," (trace.map renderObs)
+        match mapM? decObs (decList ',' implS) with
+        | none =>
+          { model, spec := if implS = "PANIC" then "FAIL:panic;sig=C15/swap-panic" else "FAIL:unreadable observation;sig=C15/swap-observation",
+            tags := ["swap"] }
+        | some implTrace =>
+          let spec := match specTrace cfgs implTrace with
+            | none => "ok"
+            | some why => "FAIL:" ++ why ++ ";sig=C15/swap-" ++ String.ofList (why.toList.takeWhile (fun c => c.isAlpha))
+          let (inside, maxRun) := countSwapsInRecords trace
+          let external := trace.any (fun o => match o with | .swapped _ => true | _ => false) && ops.any (fun a => match a with | .swap _ => true | _ => false)
+          let sizes := (cfgs.map (·.table.length)).eraseDups
+          let nested := trace.any (fun o => match o with | .begin tid _ _ => tid > 0 | _ => false) &&
+            scripts.any (fun e => e.2.2.any (fun a => match a with | .log _ _ => true | _ => false))
+          let tags := ["swap"] ++
+            (if inside > 0 then ["reentrant"] else []) ++
+            (if maxRun ≥ 2 then ["multi-swap-in-one-record"] else []) ++
+            (if external then ["external-swap"] else []) ++
+            (if sizes.length > 1 then ["table-sizes-differ"] else []) ++
+            (if nested && inside > 0 then ["nested-log-after-swap"] else []) ++
+            (if inside = 0 && !external then ["trivial"] else [])
+          { model, spec, tags }
+      | none, _ => badCase "no-config"
+      | _, _ => badCase "arity"
+    | _, _ => badCase "scripts-or-ops"
+
+/-! ### (a) multi-thread stress -/
+
+def decProbe (s : String) : Option (Target × Level) :=
+  match splitOnChar '.' s with
+  | [t, l] => do
+    let t ← decNat t; let l ← decNat l
+    if 1 ≤ l ∧ l ≤ 5 then some (t, l) else none
+  | _ => none
+
+def handleStress (cfgsS nLogS nRecS itersS probesS : String) (obs : List String) : Answer :=
+  match decCfgs cfgsS, decNat nLogS, decNat nRecS, decNat itersS, mapM? decProbe (decList ',' probesS) with
+  | some cfgs, some _nLog, some nRec, some _iters, some probes =>
+    let probeLine (p : Target × Level) : String :=
+      s!"{p.1}.{p.2}=" ++ "/".intercalate (sortStrings (cfgs.map (fun c => renderDeliveries (prescribedBy c p.1 p.2))))
+    let afterLine : String :=
+      if nRec = 1 then
+        "after=" ++ "/".intercalate (sortStrings (cfgs.flatMap (fun c => probes.map (fun p =>
+          s!"{c.tag}>{p.1}.{p.2}>" ++ renderDeliveries (prescribedBy c p.1 p.2)))))
+      else "after=-"
+    let model := ";".intercalate (probes.map probeLine ++ [afterLine, "panics=0"])
+    match obs with
+    | [implS] =>
+      -- the Spec on the implementation's observation
+      let parts := splitOnChar ';' implS
+      let bad : Option String := parts.findSome? (fun part =>
+        match splitOnChar '=' part with
+        | ["panics", n] => if n = "0" then none else some "panic"
+        | ["after", v] =>
+          if v = "-" then none else
+          (splitOnChar '/' v).findSome? (fun e =>
+            match splitOnChar '>' e with
+            | [k, p, ds] =>
+              match decNat k, decProbe p, decDeliveries ds with
+              | some k, some p, some ds => if specStressAfter cfgs p.1 p.2 k ds then none else some ("stale: after set_config(" ++ toString k ++ ")")
+              | _, _, _ => some "unreadable"
+            | _ => some "unreadable")
+        | [p, v] =>
+          match decProbe p with
+          | none => some "unreadable"
+          | some p =>
+            match mapM? decDeliveries (splitOnChar '/' v) with
+            | none => some "unreadable"
+            | some seen => if specStressProbe cfgs p.1 p.2 seen then none else some "mixed: a record matches no single configuration"
+        | _ => some "unreadable")
+      let spec := match bad with
+        | none => "ok"
+        | some why => "FAIL:" ++ why ++ ";sig=C15/stress-" ++ String.ofList (why.toList.takeWhile (fun c => c.isAlpha))
+      { model, spec, tags := ["stress", if nRec = 1 then "one-reconfigurer" else "many-reconfigurers"] }
+    | _ => badCase "arity"
+  | _, _, _, _, _ => badCase "stress-fields"
+
+/-! ### (b) reloader -/
+open Log4rs.Reconfig.Reloader
+
+def decDoc (s : String) : Option Doc :=
+  match splitOnChar ':' s with
+  | [k, tag, rate, nonce] => do
+    let kind ← (match k with
+      | "g" => some DocKind.good | "l" => some DocKind.lossy | "y" => some DocKind.syntax
+      | "c" => some DocKind.schema | "r" => some DocKind.badrate | _ => none)
+    let tag ← decNat tag
+    let rate ← decOpt decNat rate
+    let nonce ← decNat nonce
+    pure { kind, tag, rate, nonce }
+  | _ => none
+
+def decStep (docs : List Doc) (s : String) : Option (FileView Doc) :=
+  match splitOnChar ':' s with
+  | ["w", d, m] => do
+    let d ← decNat d; let m ← decNat m
+    let doc ← docs[d]?
+    pure (.ok m doc)
+  | ["x"] => some .missing
+  | ["d", m] => (decNat m).map .unreadable
+  | ["u", m] => (decNat m).map .unreadable
+  | _ => none
+
+def actionName : Action → String
+  | .applied => "applied" | .unchanged => "unchanged" | .error => "error" | .dead => "dead"
+
+def decAction : String → Option Action
+  | "applied" => some .applied | "unchanged" => some .unchanged | "error" => some .error | "dead" => some .dead
+  | _ => none
+
+def renderState (name : String) (st : RState Doc) : String :=
+  s!"{name}:{st.active}:{st.rate}:{encBool st.alive}"
+
+def decPollObs (s : String) : Option (String × PollObs) :=
+  match splitOnChar ':' s with
+  | [a, act, rate, alive] => do
+    let active ← decNat act; let rate ← decNat rate; let alive ← decBool alive
+    let action := (decAction a).getD .unchanged
+    pure (a, { action, active, rate, alive })
+  | _ => none
+
+/-- tags: which kinds of edits the history contains, seen through the model -/
+def reloadTags (st0 : RState Doc) (views : List (FileView Doc)) : List String :=
+  let rec go (st : RState Doc) (prev : FileView Doc) (seenTexts : List Doc) : List (FileView Doc) → List String
+    | [] => []
+    | fv :: rest =>
+      let r := poll parseDoc codeFixed st fv
+      let here : List String :=
+        (match fv, prev with
+         | .missing, _ => ["delete"]
+         | .unreadable _, _ => ["unreadable"]
+         | .ok m t, .ok m' t' =>
+           (if t = t' ∧ m = m' then ["no-change"] else []) ++
+           (if t = t' ∧ m ≠ m' then ["touch-without-change"] else []) ++
+           (if t ≠ t' ∧ m = m' then ["same-mtime-edit"] else [])
+         | .ok _ _, _ => ["reappears"]) ++
+        (match fv with
+         | .ok _ t =>
+           (match parseDoc t with
+            | none => [match t.kind with | .syntax => "syntax-error" | .schema => "schema-error" | _ => "bad-refresh-rate"]
+            | some (_, rt) =>
+              (if t.kind = .lossy then ["lossy-config"] else []) ++
+              (if r.2 == Action.applied then
+                 ["valid-change"] ++
+                 (if seenTexts.contains t then ["restore"] else []) ++
+                 (match rt with
+                  | some x => if x ≠ st.rate then ["rate-change"] else []
+                  | none => ["rate-removal"])
+               else []))
+         | _ => []) ++
+        (if st.alive ∧ st.modified.isSome ∧ r.1.modified ≠ st.modified ∧ r.2 == .error ∧ fv.text?.isNone then ["mtime-consumed-by-failed-read"] else []) ++
+        (if !st.alive then ["after-loop-ended"] else []) ++
+        (if st.modified.isNone then ["no-mtime"] else [])
+      here ++ go r.1 fv (match fv with | .ok _ t => t :: seenTexts | _ => seenTexts) rest
+  (go st0 (.ok (st0.modified.getD 0) st0.source) [st0.source] views).eraseDups
+
+def handleReload (docsS initS stepsS : String) (obs : List String) : Answer :=
+  match mapM? decDoc (decList ';' docsS) with
+  | none => badCase "docs"
+  | some docs =>
+    match splitOnChar ':' initS, mapM? (decStep docs) (decList ',' stepsS) with
+    | [d0, m0, forget], some views =>
+      match (decNat d0).bind (docs[·]?), decNat m0, decBool forget with
+      | some doc0, some m0, some forget =>
+        let mt : Option Mtime := if forget then none else some m0
+        match initState parseDoc mt doc0, obs with
+        | none, [implS] =>
+          { model := "init-err", spec := if implS = "init-err" then "ok" else "FAIL:init accepted an unparsable file;sig=C15/reload-init",
+            tags := ["reload", "trivial"] }
+        | some st0, [implS] =>
+          let states := pollAll parseDoc codeFixed st0 views
+          let model := ",".intercalate (renderState "init" st0 :: states.map (fun p => renderState (actionName p.1) p.2))
+          let tags := "reload" :: reloadTags st0 views
+          let implParts := splitOnChar ',' implS
+          match mapM? decPollObs implParts with
+          | none =>
+            { model, spec := "FAIL:" ++ (if implS = "PANIC" then "panic" else "unreadable observation") ++ ";sig=C15/reload-observation", tags }
+          | some [] => badCase "empty observation"
+          | some ((n0, i0) :: ps) =>
+            if n0 ≠ "init" ∨ ps.length ≠ views.length ∨ ps.any (fun p => (decAction p.1).isNone) then
+              { model, spec := "FAIL:observation shape;sig=C15/reload-observation", tags }
+            else
+              let verdict := specHistory parseDoc mt doc0 i0 (List.zip views (ps.map (·.2)))
+              let spec := match verdict with
+                | none => "ok"
+                | some (i, why) =>
+                  -- classify: the implementation behaves exactly as the model of the unpatched code, a failed
+                  -- read consumed an mtime earlier in this history and the code model with
+                  -- the patch (`fixed = true`) satisfies the whole spec on it ⇒ the known defect (a changed
+                  -- file is applied late or never)
+                  let fixedStates := pollAll parseDoc true st0 views
+                  let fixedObs : List PollObs := fixedStates.map (fun p => { action := p.1, active := p.2.active, rate := p.2.rate, alive := p.2.alive })
+                  let fixedOk := (specHistory parseDoc mt doc0 i0 (List.zip views fixedObs)).isNone
+                  let cls := if fixedOk ∧ implS = model ∧ tags.contains "mtime-consumed-by-failed-read"
+                    then "reload-mtime-consumed-by-failed-read"
+                    else "reload-" ++ String.ofList (why.toList.takeWhile (fun c => c.isAlpha || c == '-'))
+                  s!"FAIL:{why} at poll {i};sig=C15/{cls}"
+              { model, spec, tags }
+        | _, _ => badCase "arity"
+      | _, _, _ => badCase "init"
+    | _, _ => badCase "steps"
+
+def handle : Handler := fun cas obs =>
+  match cas with
+  | ["swap", cfgs, scripts, ops] => handleSwap cfgs scripts ops obs
+  | ["stress", cfgs, nLog, nRec, iters, probes] => handleStress cfgs nLog nRec iters probes obs
+  | ["reload", docs, init, steps] => handleReload docs init steps obs
+  | _ => badCase "kind"
 
 end Driver.C15
